@@ -101,14 +101,17 @@ Response(v, lname) ==
 
 (***************************************************************************)
 (* Remembered results.  An engine MAY remember a non-pass verdict for at   *)
-(* most TTL ticks and must forget everything when its settings are         *)
-(* replaced.  A memory is a set of [n, q, age]; the specification keeps    *)
-(* the LARGEST admissible memory (the real one must be a subset: it may    *)
-(* evict at any time), and the verdict never depends on it.                *)
+(* most TTL ticks after it last decided the question, and must forget      *)
+(* everything when its settings are replaced.  The verdict never depends   *)
+(* on what is remembered.  A memory is a set of [n, q, age]; the           *)
+(* specification keeps the LARGEST admissible memory: the real one must be *)
+(* a subset.  Because the real engine may forget early (eviction) and then *)
+(* decide the question anew, a rewritten answer makes the admissible entry *)
+(* young again (age 0) whether or not one was there.                       *)
 (***************************************************************************)
 Keys(m) == {[n |-> e.n, q |-> e.q] : e \in m}
 Touch(m, lname, qt) ==
-    IF [n |-> lname, q |-> qt] \in Keys(m) THEN m ELSE m \cup {[n |-> lname, q |-> qt, age |-> 0]}
+    {e \in m : ~(e.n = lname /\ e.q = qt)} \cup {[n |-> lname, q |-> qt, age |-> 0]}
 Age(m, ttl) == {[e EXCEPT !.age = @ + 1] : e \in {x \in m : x.age + 1 < ttl}}
 
 Hit(out) == Pass \notin out
